@@ -5,7 +5,7 @@
 From Coq Require Import Lia.
 From HpoV Require Import Gen.Consts Model.Base Model.Group Model.Onto Model.Query Model.Binary
   Proofs.GroupP Proofs.BaseP Proofs.ClosureP Proofs.DistP Proofs.QgoodP Proofs.LinkP Proofs.RecordsP Proofs.SectionP Proofs.RoundTripP
-  Proofs.AnnotP Proofs.BuilderAnnotP Proofs.SubLinksP Proofs.RoundTripAllP Proofs.RoundTripSrcP Proofs.DecodeAnyP.
+  Proofs.AnnotP Proofs.BuilderAnnotP Proofs.SubLinksP Proofs.RoundTripAllP Proofs.RoundTripSrcP Proofs.C03W Proofs.DecodeAnyP.
 
 Definition RK (o : onto) : Prop := forall k r d, In r (o_records k o) -> In d (a_hpos r) -> In d (ar_keys (o_arena o)).
 
@@ -72,4 +72,150 @@ Proof.
   intros k r d Hr Hd. rewrite (build_with_defaults_records o7 o H8), (calculate_ic_records icf o6 o7 H7) in Hr.
   rewrite (build_with_defaults_arena o7 o H8), (same_struct_keys _ _ (calculate_ic_same_struct icf o6 o7 H7)).
   apply (R6 k r d Hr Hd).
+Qed.
+
+(* ---------------- the term side, every byte string ---------------- *)
+
+(* every annotation id a term carries has a record: holds of whatever from_bytes returns, for any input *)
+Definition TK (o : onto) : Prop := forall k t g, In t (ar_terms (o_arena o)) -> In g (t_annots k t) -> In g (map a_id (o_records k o)).
+
+(* one link call only ever ADDS the linked id, and only to sets of its own kind: every id a term carries afterwards
+   was carried by some term before, or is the linked id (no well-formedness of the arena is needed) *)
+Definition grows_by (k : kind) (gid : N) (a a' : arena) : Prop :=
+  forall t', In t' (ar_terms a') -> forall k' x, In x (t_annots k' t') ->
+    (exists t, In t (ar_terms a) /\ In x (t_annots k' t)) \/ (k' = k /\ x = gid).
+
+Lemma grows_refl k g a : grows_by k g a a.
+Proof. intros t' Ht k' x Hx. left. exists t'. auto. Qed.
+
+Lemma grows_trans k g a b c : grows_by k g a b -> grows_by k g b c -> grows_by k g a c.
+Proof.
+  intros H1 H2 t' Ht k' x Hx. destruct (H2 t' Ht k' x Hx) as [[t [Ht2 Hx2]]|E]; [|right; exact E].
+  apply (H1 t Ht2 k' x Hx2).
+Qed.
+
+Lemma t_annots_set_same k l t : t_annots k (set_annots k l t) = l.
+Proof. destruct k; reflexivity. Qed.
+Lemma t_annots_set_other k k' l t : k' <> k -> t_annots k' (set_annots k l t) = t_annots k' t.
+Proof. intros H. destruct k, k'; try reflexivity; congruence. Qed.
+
+Lemma link_grows fuel k gid : forall a tid a', link fuel k a tid gid = Ok a' -> grows_by k gid a a'.
+Proof.
+  induction fuel as [|f IH]; intros a tid a' H; cbn [link] in H; [discriminate|].
+  destruct (ar_get tid a) as [t|] eqn:Eg; [|discriminate].
+  destruct (g_insert gid (t_annots k t)) as [set' isnew] eqn:Ei.
+  destruct isnew; [|injection H as <-; apply grows_refl].
+  destruct (get_find a tid t Eg) as [_ Hf]. unfold ar_find in Hf. apply find_by_Some in Hf as [Hin _].
+  assert (grows_by k gid a (ar_update tid (set_annots k set') a)) as G0.
+  { intros t' Ht' k' x Hx. unfold ar_update in Ht'. cbn [ar_terms] in Ht'.
+    destruct (update_by_In _ _ _ _ _ Ht') as [Hold|[y [Hy ->]]]; [left; exists t'; auto|].
+    destruct (kind_eq_dec k' k) as [->|Hne]; [rewrite t_annots_set_same in Hx|rewrite (t_annots_set_other _ _ _ _ Hne) in Hx; left; exists y; auto].
+    assert (set' = fst (g_insert gid (t_annots k t))) as -> by (rewrite Ei; reflexivity).
+    (* y is the term with id tid that was updated; its old set of kind k may differ from t's when ids repeat:
+       every element of the new set is gid or an element of t's old set, and t is a term of a *)
+    apply g_insert_In in Hx as [->|Hx]; [right; auto|left; exists t; auto]. }
+  refine (grows_trans _ _ _ _ _ G0 _).
+  clear G0 Eg Ei Hin. revert H. generalize (ar_update tid (set_annots k set') a). generalize (t_allp t).
+  intros l. induction l as [|p l IHl]; intros a0 H; cbn [foldM] in H; [injection H as <-; apply grows_refl|].
+  destruct (link f k a0 p gid) as [a1| | |] eqn:E1; cbn [bind] in H; try discriminate.
+  apply (grows_trans _ _ _ _ _ (IH _ _ _ E1) (IHl _ H)).
+Qed.
+
+Lemma TK_load_record k o r o' : TK o -> load_record k o r = Ok o' -> TK o'.
+Proof.
+  intros T H. unfold load_record in H. apply bind_Ok' in H as [a' [Ha H]]. injection H as <-.
+  set (l := an_put r (o_records k o)).
+  assert (o_arena (set_records k l (set_arena a' o)) = a') as Ea by (destruct k; reflexivity).
+  assert (o_records k (set_records k l (set_arena a' o)) = l) as Ek by (destruct k; reflexivity).
+  assert (forall k', k' <> k -> o_records k' (set_records k l (set_arena a' o)) = o_records k' o) as Eo
+    by (intros k' Hne; destruct k, k'; try reflexivity; congruence).
+  assert (grows_by k (a_id r) (o_arena o) a') as G.
+  { revert Ha. generalize (o_arena o). generalize (a_hpos r). intros l0. induction l0 as [|t ts IH]; intros a0 Ha; cbn [foldM] in Ha; [injection Ha as <-; apply grows_refl|].
+    destruct (link (link_fuel a0) k a0 t (a_id r)) as [a1| | |] eqn:E1; cbn [bind] in Ha; try discriminate.
+    apply (grows_trans _ _ _ _ _ (link_grows _ _ _ _ _ _ E1) (IH _ Ha)). }
+  assert (forall x, In x (map a_id (o_records k o)) -> In x (map a_id l)) as Mono.
+  { intros x Hx. unfold l, an_put. destruct (an_find (a_id r) (o_records k o)) eqn:Ef.
+    - apply in_map_iff in Hx as [y [<- Hy]]. destruct (N.eq_dec (a_id y) (a_id r)) as [E|Ne].
+      + rewrite E. apply in_map_iff. exists r. split; [reflexivity|]. clear -Hy E. induction (o_records k o) as [|z zs IH]; [destruct Hy|].
+        cbn [update_by]. destruct (N.eqb_spec (a_id z) (a_id r)); [left; reflexivity|]. destruct Hy as [->|Hy]; [congruence|right; apply IH, Hy].
+      + apply in_map. clear -Hy Ne. induction (o_records k o) as [|z zs IH]; [destruct Hy|].
+        cbn [update_by]. destruct Hy as [->|Hy].
+        * destruct (N.eqb_spec (a_id y) (a_id r)); [congruence|left; reflexivity].
+        * destruct (a_id z =? a_id r); right; [exact Hy|apply IH, Hy].
+    - rewrite map_app. apply in_or_app. left. exact Hx. }
+  assert (In (a_id r) (map a_id l)) as Hr.
+  { unfold l, an_put. destruct (an_find (a_id r) (o_records k o)) as [r0|] eqn:Ef.
+    - unfold an_find in Ef. apply find_by_Some in Ef as [Hin Hid]. apply in_map_iff. exists r. split; [reflexivity|].
+      clear -Hin Hid. induction (o_records k o) as [|z zs IH]; [destruct Hin|]. cbn [update_by].
+      destruct (N.eqb_spec (a_id z) (a_id r)); [left; reflexivity|]. destruct Hin as [->|Hin]; [congruence|right; apply IH, Hin].
+    - rewrite map_app. apply in_or_app. right. left. reflexivity. }
+  intros k' t g Ht Hg. rewrite Ea in Ht. destruct (G t Ht k' g Hg) as [[t0 [Ht0 Hg0]]|[-> ->]].
+  - pose proof (T k' t0 g Ht0 Hg0) as Hin. destruct (kind_eq_dec k' k) as [->|Hne]; [rewrite Ek; apply Mono, Hin|rewrite (Eo k' Hne); exact Hin].
+  - rewrite Ek. exact Hr.
+Qed.
+
+(* the record sections of a binary file, whatever they contain: loading them keeps "every id a term carries has a
+   record" (no hypothesis on the arena: ids may repeat, caches may be anything) *)
+Theorem TK_load_records k rs : forall o o', TK o -> foldM (load_record k) rs o = Ok o' -> TK o'.
+Proof.
+  intros o o' T H. refine (foldM_inv _ TK _ _ o o' T H). intros s r s' _ Hs Ts. apply (TK_load_record k s r s' Ts Hs).
+Qed.
+
+(* ---------------- the whole load, every byte string ---------------- *)
+
+Lemma create_cache_noannot fuel : forall a id a', noannot a -> create_cache fuel a id = Ok a' -> noannot a'.
+Proof.
+  induction fuel as [|f IH]; intros a id a' Na H; cbn [create_cache] in H; [discriminate|].
+  destruct (ar_get_unchecked id a) as [t| | |]; cbn [bind] in H; try discriminate.
+  match type of H with bind ?e _ = _ => destruct e as [[a1 acc]| | |] eqn:Ef end; cbn [bind] in H; try discriminate.
+  assert (noannot a1) as N1.
+  { revert Ef. generalize (@nil N) at 1. generalize a Na. generalize (t_parents t) at 1. intros ps.
+    induction ps as [|p ps IHp]; intros a0 Na0 acc0 Ef; cbn [foldM] in Ef; [injection Ef as <- _; exact Na0|].
+    destruct (ar_get_unchecked p a0) as [tp| | |]; cbn [bind] in Ef; try discriminate.
+    destruct (if parents_cached tp then Ok a0 else create_cache f a0 p) as [a2| | |] eqn:E2; cbn [bind] in Ef; try discriminate.
+    assert (noannot a2) as N2 by (destruct (parents_cached tp); [injection E2 as <-; exact Na0|apply (IH _ _ _ Na0 E2)]).
+    destruct (ar_get_unchecked p a2) as [tp'| | |]; cbn [bind] in Ef; try discriminate.
+    apply (IHp a2 N2 _ Ef). }
+  apply (noannot_update_unchecked _ _ _ _ N1 (fun t0 k0 => annots_set_allp _ t0 k0) H).
+Qed.
+
+Lemma connect_all_noannot fuel a a' : noannot a -> connect_all fuel a = Ok a' -> noannot a'.
+Proof.
+  unfold connect_all. generalize (ar_keys a). intros ks. revert a. induction ks as [|k ks IH]; intros a Na H; cbn [foldM] in H; [injection H as <-; exact Na|].
+  destruct (create_cache fuel a k) as [a1| | |] eqn:E; cbn [bind] in H; try discriminate.
+  apply (IH a1 (create_cache_noannot _ _ _ _ Na E) H).
+Qed.
+
+Lemma unchecked_noannot p c a a' : noannot a -> b_add_parent_unchecked p c a = Ok a' -> noannot a'.
+Proof.
+  unfold b_add_parent_unchecked. intros Na H. apply bind_Ok' in H as [a1 [H1 H2]].
+  apply (noannot_update_unchecked _ _ _ _ (noannot_update_unchecked _ _ _ _ Na (fun t k => annots_set_children _ t k) H1) (fun t k => annots_set_parents _ t k) H2).
+Qed.
+
+(* EVERY byte string: in an ontology returned by from_bytes every gene / disease id a term carries has a record *)
+Theorem decode_terms_closed icf input o : decode icf input = Ok o ->
+  forall k t g, In t (ar_terms (o_arena o)) -> In g (t_annots k t) -> In g (map a_id (o_records k o)).
+Proof.
+  intros H.
+  destruct (decode_stages icf input o H) as (v & ver & f & st & sp & sg & sm & so & a1 & a2 & a3 & o4 & o5 & o6 & o7 & Hs & H1 & H2 & H3 & H4 & H5 & H6 & H7 & H8).
+  destruct (read_terms_blank f v st arena_default a1 H1 blank_default) as (_ & _ & _ & N1).
+  destruct (read_parents_parse f sp 0 a1 a2 H2) as [conns [_ Hc]].
+  assert (noannot a2) as N2.
+  { revert Hc. generalize a1 N1. induction conns as [|cp cs IH]; intros a0 N0 Hc; cbn [foldM] in Hc; [injection Hc as <-; exact N0|].
+    destruct (b_add_parent_unchecked (snd cp) (fst cp) a0) as [a0'| | |] eqn:E; cbn [bind] in Hc; try discriminate.
+    apply (IH a0' (unchecked_noannot _ _ _ _ N0 E) Hc). }
+  pose proof (connect_all_noannot _ _ _ N2 H3) as N3.
+  assert (TK (set_arena a3 (set_version ver onto_new))) as T3.
+  { intros k t g Ht Hg. cbn [o_arena set_arena] in Ht. rewrite (N3 t Ht k) in Hg. destruct Hg. }
+  destruct (read_records_parse f KGene sg 0 _ o4 H4) as [gs [_ F4]]. pose proof (TK_load_records KGene gs _ o4 T3 F4) as T4.
+  destruct (read_records_parse f KOmim sm 0 _ o5 H5) as [ms [_ F5]]. pose proof (TK_load_records KOmim ms _ o5 T4 F5) as T5.
+  assert (TK o6) as T6.
+  { destruct so as [s|]; [|subst o6; exact T5]. destruct (read_records_parse f KOrpha s 0 _ o6 H6) as [os [_ F6]]. apply (TK_load_records KOrpha os _ o6 T5 F6). }
+  (* information content and the default groups leave annotation sets and records alone *)
+  intros k t g Ht Hg. rewrite (build_with_defaults_records o7 o H8), (calculate_ic_records icf o6 o7 H7).
+  rewrite (build_with_defaults_arena o7 o H8) in Ht.
+  destruct (calculate_ic_spec icf o6 o7 H7) as (_ & _ & _ & _ & _ & F).
+  destruct (Forall2_In_r _ _ _ t F Ht) as [t6 [Ht6 [Et _]]].
+  rewrite Et in Hg. assert (t_annots k (set_ic (t_ic t) t6) = t_annots k t6) as Ea by (destruct k, t6; reflexivity).
+  rewrite Ea in Hg. apply (T6 k t6 g Ht6 Hg).
 Qed.
